@@ -145,9 +145,11 @@ def blob_to_csv(
         for col in csv_df.columns:
             if col == 'cell_id':
                 continue
-            if 'name' in col or 'label' in col or 'alias' in col:
+            if (col.endswith('_name')
+                    or col.endswith('_label')
+                    or col.endswith('_alias')):
                 continue
-            if confidence_label in col:
+            if col.endswith(f'_{confidence_label}'):
                 continue
             columns_to_drop.append(col)
 
@@ -200,13 +202,13 @@ def blob_to_df(
 
     for col in df.columns:
         convert_to_category = False
-        if 'label' in col:
+        if col.endswith('_label'):
             convert_to_category = True
-        elif 'name' in col:
+        elif col.endswith('_name'):
             convert_to_category = True
-        elif 'alias' in col:
+        elif col.endswith('_alias'):
             convert_to_category = True
-        elif 'assignment' in col:
+        elif col.endswith('_assignment'):
             convert_to_category = True
 
         if convert_to_category:
